@@ -224,6 +224,10 @@ def jsondata_desc(draw, simple=False):
     if simple:
         v = draw(_sjson_obj)
     else:
+        if draw(st.integers(0, 11)) == 0:
+            # a blob handed over as COMPACT text just below the smallest size limit (1024): legal as it is, but any
+            # re-encoding with other separators on the way would push it over the limit
+            return {"form": "text", "v": [7] * draw(st.integers(500, 511)), "fmt": 1, "big": True}
         v = draw(st.one_of(st.dictionaries(_text(6), _json_obj, max_size=3), st.lists(_json_obj, max_size=3)))
     return {"form": draw(st.sampled_from(["obj", "obj", "text"])), "v": v, "fmt": draw(st.integers(0, 2))}
 
@@ -315,7 +319,7 @@ def kind_strategy(kind, cls_key=None, simple_json=False):
         return st.dictionaries(st.sampled_from(FLAG_FIELDS), st.booleans(), max_size=4)
     if kind in ("MF", "UD", "LD"):
         # smallest size limit of the three classes (LayoutData: 1024 bytes of JSON text), any formatting
-        return jsondata_desc(simple=simple_json).filter(lambda d: len(json.dumps(d["v"], indent=1)) < 1000)
+        return jsondata_desc(simple=simple_json).filter(lambda d: d.get("big") or len(json.dumps(d["v"], indent=1)) < 1000)
     if kind == "IP":
         return st.one_of(_ipv4, _ipv6)
     if kind == "LOC":
